@@ -49,6 +49,7 @@ PROPS = {
     },
     "C03": {
         "profile": "all", "n_quick": 4, "n_thorough": 30, "nops": 18, "nlists": 3, "cfgs": SIX,
+        "corpus": ["fork_auto_region"],
         "monitor": M.mon_C03, "check_ids": True, "extra_flags": ("-DH_INTROSPECT",),
         "relevant": M.relevant_by(M.proj({"N", "X", "MN", "MX"}, keep_snap=True)),
         "rule": "machines with completion, deferral, history and blocking states; after every operation the reported "
@@ -116,7 +117,7 @@ PROPS = {
     "C09": {
         "extra": [("mix", 3, 12)], "profile": "pseudo", "n_quick": 5, "n_thorough": 40, "nops": 18, "nlists": 3,
         "cfgs": SIX + ["back:p3", "back:p2", "back_fct:p3", "mp11:p3", "mp11_fct:p1"],
-        "corpus": ["exitpt_outside", "exitpt_codes", "exitpt_regions", "fork_partial_none", "fork_partial_shallow_other", "fork_partial_shallow_fork", "fork_partial_always"],
+        "corpus": ["exitpt_outside", "exitpt_codes", "exitpt_regions", "fork_auto_region", "fork_partial_none", "fork_partial_shallow_other", "fork_partial_shallow_fork", "fork_partial_always"],
         "monitor": None,
         "relevant": M.relevant_by(M.proj(M.ALL, keep_res=True, keep_snap=True, keep_ev=True)),
         "rule": "machines whose submachines have explicit-entry states, forks, entry and exit pseudo states (rows generated "
@@ -159,7 +160,7 @@ PROPS = {
     "C15": {
         "profile": "copy", "n_quick": 5, "n_thorough": 40, "nops": 22, "nlists": 3, "cfgs": SIX,
         "ops": lambda g, md, n: g.gen_ops_copy(md, n, mode="move" if g.rng.random() < 0.5 else "copy"),
-        "ops_cfg": True,
+        "ops_cfg": True, "extra_flags": ("-DH_OBJDATA",),
         "corpus": ["copyhist_none", "copyhist_always", "copyhist_shallow", "assignhist_none", "assignhist_always",
                    "assignhist_shallow", "movehist_always", "movehist_shallow"],
         "monitor": M.mon_C15,
@@ -192,6 +193,7 @@ PROPS = {
     },
     "C18": {
         "profile": "events", "n_quick": 5, "n_thorough": 40, "nops": 16, "nlists": 3, "cfgs": ["back", "mp11", "back_fct", "mp11_fct", "mp11_fpa", "back11"],
+        "corpus": ["base_forward_2", "base_forward_3"],
         "monitor": None,
         "relevant": M.relevant_by(M.proj(M.ALL, keep_res=True, keep_snap=True, keep_ev=True)),
         "rule": "machines mixing exact, base-class (one derived event type) and Kleene triggers; every event type of the "
